@@ -427,7 +427,8 @@ Qed.
 Theorem unlock_step_kpl r s conn c s' ev w :
   unlock_step s conn c = (s', ev, w) ->
   (forall m, aget (mgrs s) (c_key c) = Some m -> get_locked_lock s m (c_lockid c) <> Some r) ->
-  (forall m, aget (mgrs s) (c_key c) = Some m -> has (c_flag c) UNLOCK_FLAG_FIRST = true -> m_cur m <> Some r) ->
+  (forall m, aget (mgrs s) (c_key c) = Some m -> get_locked_lock s m (c_lockid c) = None ->
+             has (c_flag c) UNLOCK_FLAG_FIRST = true -> m_cur m <> Some r) ->
   (has (c_flag c) UNLOCK_FLAG_CANCEL_WAIT = true ->
      l_timeouted (getl s r) = true /\ wq_safe r s (m_wq (getm s (c_key c)))) ->
   kpl r s s'.
